@@ -55,7 +55,17 @@ func vfCodec(env *vfc.Env, r *ref.Rand, i int, maxSize int) {
 	default:
 		n = r.Range(1, 20000)
 	}
-	spec := ref.ValueSpec{Class: class, Size: n, Seed: r.Uint64()}
+	seed := r.Uint64()
+	if r.Intn(8) == 0 {
+		// a repeat at an exact (boundary) distance: twice the distance plus a little
+		class = "farrepeat"
+		d := ref.FarRepeatDistances[r.Intn(len(ref.FarRepeatDistances))]
+		for 2*d+5000 > maxSize {
+			d /= 2
+		}
+		n = 2*d + r.Pick(0, 1, 7, 300, 5000) + r.Intn(2)*d
+	}
+	spec := ref.ValueSpec{Class: class, Size: n, Seed: seed}
 	res.Begin(id, spec)
 	src := spec.Build()
 	if len(src) == 0 {
